@@ -367,6 +367,13 @@ int main(int argc, char** argv) {
              Path64{{6, 2}, {10, 2}, {10, 10}, {6, 10}}, Path64{{4, 0}, {4, 2}, {8, 2}, {8, 4}, {10, 4}, {10, 6}, {12, 6}, {12, 0}}},
             {Path64{{14, 4}, {12, 4}, {12, 6}, {8, 6}, {8, 8}, {6, 8}, {6, 10}, {10, 10}, {10, 12}, {14, 12}},
              Path64{{12, 0}, {12, 8}, {6, 8}, {6, 6}, {2, 6}, {2, 2}, {0, 2}, {0, 0}}});
+    // a hole strictly inside the outer polygon (touching nothing) becomes a top-level node: in ProcessHorzJoins a ring split off the outer
+    // ring (owner: the outer ring) is merged INTO a ring whose tentative owner is still null, and the survivor keeps the null owner, so
+    // RecursiveCheckOwners never tries the outer ring (found by the generic rectilinear stream at seed 71; correct at lattice step 1,
+    // wrong at every step >= 2)
+    kf_tree("kf.tree.hole_at_top_level_after_merge", 2, 1, false, false,
+            {Path64{{-6, -6}, {-2, -6}, {-2, -4}, {6, -4}, {6, 2}, {-6, 2}}},
+            {Path64{{6, 0}, {6, 8}, {12, 8}, {12, 0}}, Path64{{-10, 2}, {-10, 8}, {8, 8}, {8, 2}}, Path64{{-2, 2}, {-2, 4}, {-4, 4}, {-4, 2}}});
     // corpus: dense lattice rectangles in which a ring is split by one horizontal join and merged by a later one; the hole
     // (90,50)-(100,80) must be found under the big outer polygon through the splits list inherited at the merge
     {
